@@ -423,6 +423,33 @@ pub fn big_scenarios(srcs: &SrcCache) -> Vec<Scenario> {
     )]
 }
 
+/// Two directories whose contents interleave with other entries in the index (a directory's own
+/// entry comes long before its contents): in the new tree the first one lost its last files and
+/// had one rewritten, so an interrupted version that got past them must not bring them back,
+/// whichever selection it is read through.
+pub fn subdir_scenarios(srcs: &SrcCache) -> Vec<Scenario> {
+    let mut t4 = empty_tree();
+    put(&mut t4, "sub", Node::dir(T0 + 70));
+    for (i, n) in ["a", "b", "c", "d"].iter().enumerate() {
+        put(&mut t4, &format!("sub/{n}"), Node::file(format!("sub-{n}").as_bytes(), T0 + 71 + i as i64));
+    }
+    put(&mut t4, "tail", Node::dir(T0 + 80));
+    for (i, n) in ["x", "y", "z"].iter().enumerate() {
+        put(&mut t4, &format!("tail/{n}"), Node::file(format!("tail-{n}").as_bytes(), T0 + 81 + i as i64));
+    }
+    let mut t5 = t4.clone();
+    put(&mut t5, "sub/a", Node::file(b"SUB-A", T0 + 90));
+    t5.remove("sub/c");
+    t5.remove("sub/d");
+    vec![build_scenario(
+        "S13-b0(T4)+T5-files-gone-from-first-of-two-directories",
+        &[Step::Backup(t4, opts_s())],
+        t5,
+        opts_s(),
+        srcs,
+    )]
+}
+
 // ---------------------------------------------------------------------------------------------
 // Shared oracles
 
